@@ -1277,7 +1277,7 @@ class Adapter(object):
         return execute(plan, None, want_events=True)
 
     def execute_isolated(self, plan):
-        return isolate.with_rundir(execute, (plan, None, True), timeout=600)
+        return isolate.with_rundir(execute, (plan, None, True), timeout=200)
 
     def shrink(self, plan, violation, deadline):
         return shrink(plan, violation, deadline)
